@@ -322,5 +322,57 @@ def _stored(job, ctx):
                 elif route == "to_python" and not isinstance(got[1], (ValueError, TypeError, cc.ValidationError)):
                     ctx.violation("C08|stored|%s|%s|odd-error" % (name, route),
                                   "to_python(%s) raised %s" % (name, type(got[1]).__name__), case)
+    # one schema, several configurations with different key files: a value saved under K1 must never come back as the
+    # plaintext in a configuration that uses K2 - whatever was loaded before through the same schema
+    key2 = os.path.join(ctx.tmp, "s2.key")
+    open(key2, "wb").write(bytes(255 - i for i in range(32)))
+    for fmethod in ("aes", "xor", "best"):
+        for order in ("wrong-first", "right-first", "right-twice-then-wrong", "same-object-rekeyed"):
+            for where in ("field", "list", "nested"):
+                if only and only != ["crosskey", fmethod, order, where]:
+                    continue
+                schema = cc.Schema()
+                schema.s = cc.SecureField(method=fmethod)
+                schema.l = cc.ListField(cc.SecureField(method=fmethod))
+                schema.sub.s = cc.SecureField(method=fmethod)
+                secret = "cross-key-secret-%s" % where
+                src = cc.Config(schema, key_filename=keyp)
+                if where == "field":
+                    src.s = secret
+                elif where == "list":
+                    src.l = [secret]
+                else:
+                    src.sub.s = secret
+                doc = src.dumps("json")
+
+                def load_with(keyfile, cfg=None):
+                    c = cfg or cc.Config(schema, key_filename=keyfile)
+                    if cfg is not None:
+                        c._key_filename = keyfile
+                    try:
+                        c.loads(doc, "json")
+                    except Exception as exc:  # noqa
+                        return ("raise", exc)
+                    v = c.s if where == "field" else (c.l[0] if where == "list" else c.sub.s)
+                    return ("ok", v)
+                if order == "wrong-first":
+                    got = load_with(key2)
+                elif order == "right-first":
+                    load_with(keyp)
+                    got = load_with(key2)
+                elif order == "right-twice-then-wrong":
+                    load_with(keyp); load_with(keyp)
+                    got = load_with(key2)
+                else:
+                    c = cc.Config(schema, key_filename=keyp)
+                    load_with(keyp, c)
+                    got = load_with(key2, c)
+                ctx.transitions += 1
+                ctx.states += 1
+                ctx.case(("crosskey", fmethod, order, where), "crosskey:%s:%s" % (order, got[0]), True)
+                if got[0] == "ok" and got[1] == secret:
+                    ctx.violation("C08|crosskey|%s|%s|%s" % (fmethod, order, where),
+                                  "a secret saved under one key file was read back in clear by a configuration using a different key file (%s, %s)" % (order, where),
+                                  _case(job, ["crosskey", fmethod, order, where]))
     ctx.traces += 1
     ctx.sample({"stored_shapes": [n for n, _ in STORED_BAD], "routes": ["to_python", "load_tree", "list-item"]})
